@@ -96,6 +96,7 @@ def parseLine (c : Case) (l : String) : Case :=
   | "skip" :: _ => c
   | "member" :: _ => c
   | "pre" :: _ => c
+  | "fpmode" :: _ => c
   | [] => c
   | _ => { c with bad := true }
 
